@@ -839,6 +839,19 @@ class Engine:
         if isinstance(kind, KSet) and isinstance(k, KSet):
             if kind.elem == k.elem and not kind.region:
                 return sv
+        if isinstance(kind, KList) and isinstance(k, KList) and k.elem is KVal and kind.elem in (KFloat, KInt) and not kind.region and not k.region:
+            # dynamic values where numbers are declared (a list built from Any-typed attributes): same length, unboxed
+            # elements (unchecked: a non-numeric element would only fail later, where it is used as a number)
+            n = self.list_len(st, sv)
+            out = self.new_list(st, kind, n)
+            _, e_src = self.lnames(k)
+            _, e_dst = self.lnames(kind)
+            arr = st.fresh("unboxl", z3.ArraySort(z3.IntSort(), sort_of(kind.elem)))
+            i = z3.Int("unboxl_i")
+            src = self.harr(st, e_src)[sv.term]
+            st.assume(qforall([i], arr[i] == self.coerce_val_unchecked(st, SV(KVal, src[i]), kind.elem).term, patterns=[arr[i], src[i]]), quantified=True)
+            st.heap[e_dst] = z3.Store(self.harr(st, e_dst), out.term, arr)
+            return out
         if isinstance(kind, KList) and isinstance(k, KTuple):
             items = self.tuple_items(sv)
             l = self.new_list(st, kind, z3.IntVal(len(items)))
